@@ -410,6 +410,10 @@ def _convert_to_test_module(enabled_examples):
 
         # Create a unit-testable function for this example
         func_name = 'test_' + example.modname.replace('.', '_') + '_' + example.callname.replace('.', '_')
+        if example.num:
+            # Several doctests of one docstring must not share a name,
+            # otherwise the later function replaces the earlier one.
+            func_name += '_' + str(example.num)
         body_lines = []
 
         docstr_lines = [
